@@ -19,6 +19,7 @@ import (
 	"io"
 	"math"
 	"path/filepath"
+	"sort"
 	"strings"
 
 	"github.com/google/pprof/internal/measurement"
@@ -78,21 +79,32 @@ func ComposeDot(w io.Writer, g *Graph, a *DotAttributes, c *DotConfig) {
 		}
 	}
 
-	edges := EdgeMap{}
+	var edges edgeList
 
 	// Add nodes and nodelets to DOT builder.
 	for _, n := range g.Nodes {
 		builder.addNode(n, nodeIDMap[n], maxFlat)
 		hasNodelets[n] = builder.addNodelets(n, nodeIDMap[n])
 
-		// Collect all edges. Use a fake node to support multiple incoming edges.
+		// Collect all edges.
 		for _, e := range n.Out {
-			edges[&Node{}] = e
+			edges = append(edges, e)
 		}
 	}
 
 	// Add edges to DOT builder. Sort edges by frequency as a hint to the graph layout engine.
-	for _, e := range edges.Sort() {
+	// In a call tree distinct nodes can carry the same Info: break such ties by
+	// node id, so that the order never depends on map iteration.
+	sort.Slice(edges, func(i, j int) bool {
+		if edges.Less(i, j) || edges.Less(j, i) {
+			return edges.Less(i, j)
+		}
+		if a, b := nodeIDMap[edges[i].Src], nodeIDMap[edges[j].Src]; a != b {
+			return a < b
+		}
+		return nodeIDMap[edges[i].Dest] < nodeIDMap[edges[j].Dest]
+	})
+	for _, e := range edges {
 		from, to := nodeIDMap[e.Src], nodeIDMap[e.Dest]
 		if from == 0 || to == 0 {
 			// An end of the edge is not a node of the graph: there is no
